@@ -39,11 +39,16 @@ NAMES = ["a", "b", "c", "d", "e"]
 NESTED = [{"a": 10, "color": "red", "dim": {"w": 1, "b": 2}}, {"color": "blue", "c": [1, {"d": 2, "zz": 3}]}, {"b": "inner", "tags": {"x": 1}}, {}, {"e": None, "k": 1.5}]
 MIXEDNUM = [1, 1.0, True, 0, 0.0, False, 2.5, 1]
 
-def _table(rng, n, ncol, csv_only=False, json_only=None):
+def _table(rng, n, ncol, csv_only=False, json_only=None, ts_ok=False):
     """Plain-Python table: list of (name, kind, values) over int / digit-str / word-str / float / iso-date-str."""
     cols = []
     for name in rng.sample(NAMES, ncol):
-        kind = rng.choice(["int", "float", "word", "digits", "iso"] + (["intz"] if csv_only else []) + (["nested", "nested"] if json_only else []) + (["mixednum"] if json_only == "lod" else []))
+        kind = rng.choice(["int", "float", "word", "digits", "iso"] + (["intz"] if csv_only else []) + (["nested", "nested"] if json_only else []) + (["mixednum"] if json_only == "lod" else []) + (["ts", "ts"] if ts_ok else []))
+        if kind == "ts":
+            # timestamps with a time of day (read back as datetime64 of some unit): a dtype map may ask for another unit of the same kind
+            import datetime as _dt
+            cols.append((name, kind, [_dt.datetime(2020, 1, 5, 10, 20, 30) + _dt.timedelta(days=rng.choice([0, 1, 400]), seconds=rng.choice([0, 59, 3601])) for _ in range(n)]))
+            continue
         if kind == "nested":
             # JSON objects as values, whose inner keys coincide with column names or not, at several depths
             cols.append((name, kind, [json.loads(json.dumps(rng.choice(NESTED))) for _ in range(n)]))
@@ -70,7 +75,8 @@ def generate(rng, tier):
     if rng.random() < 0.5:
         if mode == "restrict" and reader0 in ("df-json", "lod-json"): json_only = "df" if reader0 == "df-json" else "lod"
         if mode == "alias" and alias0 == "read_json": json_only = "lod"
-    cols = _table(rng, n, rng.randint(2, 5), csv_only=(mode == "restrict" and reader0 == "df-csv"), json_only=json_only)
+    cols = _table(rng, n, rng.randint(2, 5), csv_only=(mode == "restrict" and reader0 == "df-csv"), json_only=json_only,
+                  ts_ok=(mode == "restrict" and reader0 in ("df-csv", "df-parquet")))
     names = [c[0] for c in cols]
     case = {"mode": mode, "cols": cols, "writer": rng.choice(["library", "independent"]), "ragged": rng.getrandbits(16) if rng.random() < 0.4 else 0}
     if mode == "restrict":
@@ -87,6 +93,7 @@ def generate(rng, tier):
                 elif kind == "iso" and case["reader"] in ("df-json", "geojson"): m[name] = "datetime64[D]"
                 elif kind == "float" and case["reader"].startswith("lod"): m[name] = "str"
                 elif kind == "mixednum": m[name] = "str"
+                elif kind == "ts": m[name] = rng.choice(["datetime64[D]", "datetime64[ms]", "datetime64[h]"])
         if case["ragged"] and case["reader"] in ("df-json", "geojson"):
             m = {}      # a cast of a column that also holds missing values is not one of the unambiguous casts
         case["map"] = m
@@ -101,6 +108,9 @@ def generate(rng, tier):
             k = rng.randint(1, len(names))
             case["subset"] = rng.sample(list(gnames), k)
             case["map"] = {}
+        if case["reader"] == "df-parquet" and rng.random() < 0.3:
+            case["writer"] = "independent"
+            case["pandas_writer"] = rng.choice(["reversed", "filtered", "named-index"])
         if case["reader"] == "df-csv" and not case.get("noheader") and rng.random() < 0.2:
             case["bom"] = True        # a file that starts with a UTF-8 byte order mark (spreadsheet "CSV UTF-8" export)
         if case["reader"] == "df-csv" and rng.random() < 0.05:
@@ -191,6 +201,15 @@ def _write(case, path, fmt, enc="utf-8", sep=",", header=True):
     elif fmt == "parquet":
         if lib:
             di.DataFrame(**{c[0]: list(c[2]) for c in cols}).write_parquet(path)
+        elif case.get("pandas_writer"):
+            # a file written by pandas from a frame whose index is not the default one (filtered / sorted / set_index): it carries an index column and pandas metadata
+            import pandas as pd
+            pdf = pd.DataFrame({c[0]: list(c[2]) for c in cols})
+            how = case["pandas_writer"]
+            if how == "reversed": pdf = pdf.iloc[::-1]
+            elif how == "filtered": pdf = pdf.iloc[[i for i in range(len(pdf)) if i % 2 == 0] or [0]]
+            else: pdf.index = pd.Index([f"r{i}" for i in range(len(pdf))], name="rowname")
+            pdf.to_parquet(path)
         else:
             import pyarrow as pa, pyarrow.parquet as pq
             pq.write_table(pa.table({c[0]: list(c[2]) for c in cols}), path)
@@ -300,7 +319,7 @@ def execute(case):
         except Exception as e:
             res.violate(f"restrict:{reader}:raised:{exc_name(e)}", f"raised {e!r}; {ctx}")
             return res.dict()
-        keep = sub or names
+        keep = sub or (names if reader.startswith("lod") else [k for k in dict.keys(full) if k != "geometry"])
         if reader.startswith("lod"):
             exp = []
             for it in list.__iter__(full):
